@@ -187,6 +187,23 @@ var Templates = []*Template{
 		},
 	},
 	{
+		// the import is named by a metavariable, which also qualifies the call
+		Name: "named-import-metavar",
+		Patch: func(k int) string {
+			return fmt.Sprintf("@@\nvar foo identifier\n@@\n-import foo \"vf/old%d\"\n+import foo \"vf/new%d\"\n\n-foo.Old()\n+foo.New()\n", k, k)
+		},
+		Trigger: func(k int) string { return fmt.Sprintf("vf/old%d", k) },
+		Stmt:    func(r *world.PRNG, k int) string { return fmt.Sprintf("pk%d.Old()", k) },
+		Imports: func(k int) []string { return []string{fmt.Sprintf("pk%d \"vf/old%d\"", k, k)} },
+	},
+	{
+		// no metavariable: "x" is the identifier x and nothing else
+		Name:    "literal-arg",
+		Patch:   func(k int) string { return fmt.Sprintf("@@\n@@\n-vfOld%d(x, err)\n+vfNew%d(x, err)\n", k, k) },
+		Trigger: func(k int) string { return fmt.Sprintf("vfOld%d", k) },
+		Stmt:    func(r *world.PRNG, k int) string { return fmt.Sprintf("vfOld%d(x, err)", k) },
+	},
+	{
 		Name: "type-rename",
 		Patch: func(k int) string {
 			return fmt.Sprintf("@@\nvar T identifier\n@@\n-type VfOld%d T\n+type VfNew%d T\n", k, k)
@@ -341,6 +358,17 @@ func NearMisses(t *Template, k int) (stmts, decls []string) {
 			fmt.Sprintf("type %s[T any] int", trig),
 			fmt.Sprintf("var %s int", trig),
 		)
+	case "literal-arg":
+		stmts = append(stmts,
+			fmt.Sprintf("%s(1, err)", trig),
+			fmt.Sprintf("%s(x, nil)", trig),
+			fmt.Sprintf("%s(y, e)", trig),
+			fmt.Sprintf("%s(g(x), err)", trig),
+			fmt.Sprintf("%s(x)", trig),
+		)
+	case "named-import-metavar":
+		// (the file also imports the path, unnamed: see NearMissFile)
+		stmts = []string{"bar.Old()", fmt.Sprintf("old%d.Other()", k), "cfg.Old()", "_ = \"" + trig + "\""}
 	case "delete-before-anchor":
 		stmts = append(stmts,
 			fmt.Sprintf("%s()\nother()\nvfKeep%d()", trig, k),
@@ -372,6 +400,9 @@ func NearMissFile(r *world.PRNG, cs []Change, style, header string) []byte {
 			} else {
 				o.Stmts = append(o.Stmts, st[r.Intn(len(st))])
 			}
+		}
+		if ch.T.Name == "named-import-metavar" {
+			o.Imports = append(o.Imports, ch.T.Trigger(ch.K))
 		}
 		if ch.T.Name == "package-guarded" {
 			// the exact instance, in a file of another package
